@@ -27,6 +27,16 @@ CHECKS["C14"] = dict(
     design_ref="DESIGN.md section 5, C14",
 )
 
+E1_NOTE = "Trusted: the model data plane (EEXIST/ENOENT semantics) standing for the gtp5g module; events reach the event loop one at a time (quiescence = queues empty and loop goroutine parked in select, read from a goroutine dump); go-pfcp as the SMF-side encoder; the in-harness PFCP decoder."
+
+CHECKS["C04"] = dict(
+    engine=E1,
+    technique="explicit-state BFS over all event histories (Assoc/Est/Del/Report/ReportRsp on two peers) of the real PfcpServer to a depth bound, with a probe sweep of every SEID class (0, live, released, beyond table, 2^32, 2^63-1, 2^63, 2^63+1, 2^64-1) after each transition, against a reference live-session set",
+    text="Model checking of the implementation itself: every reachable canonical state within the bound is visited, the oracle (unique non-zero SEID, exact addressing, 'context not found' without side effect for every other class, re-issue only after complete removal) is evaluated on every transition.",
+    note=E1_NOTE + " States are canonical up to renaming of SEID values (free-list order after a node reset follows Go map iteration).",
+    design_ref="DESIGN.md section 5, C04",
+)
+
 NOT_YET = "check not built yet (work in progress in this round; design in DESIGN.md section 5)"
 
 def main():
